@@ -276,6 +276,16 @@ func runC03(c *Ctx) {
 			if !o.valid && ga && !b {
 				c.Tag("invalidPod.orderBroken(expected: hypothesis is necessary)")
 			}
+			if o.valid && ga {
+				// the order the admission controller asks in when enforce is restricted and audit / warn are baseline: restricted
+				// first, baseline right after, on the same object
+				again, _ := newRecEvaluatorCached().Eval(mkLV("baseline", o.minor), o.pc.Pod)
+				c.Eval(1)
+				if !allAllowed(again) {
+					c.Violate(Finding{Desc: fmt.Sprintf("API-valid pod allowed at restricted and, evaluated at baseline right afterwards (same object), denied at version %s", verName("", o.minor)), Key: "order-after-restricted",
+						Input: J{"minor": o.minor, "pod": o.pc.Pod}, Go: bits(again)})
+				}
+			}
 		}
 		if o.leanOK && ga != allAllowed(o.lean) {
 			c.Disagree(Finding{Desc: fmt.Sprintf("verdict bit differs at %s: Go %v model %v", verName(o.level, o.minor), ga, allAllowed(o.lean)),
